@@ -29,6 +29,8 @@ pub trait Flavor: 'static {
     fn receive(c: &Self::Chan) -> Self::Fut;
     fn snapshot(c: &Self::Chan) -> Snapshot;
     fn node(f: &Self::Fut) -> NodeSnap;
+    fn debug(c: &Self::Chan) -> String;
+    fn node_debug(f: &Self::Fut) -> String;
     fn senders(_c: &Self::Chan) -> usize {
         1
     }
@@ -76,6 +78,12 @@ impl<M: RawMutex + 'static> Flavor for BOne<M> {
     fn node(f: &Self::Fut) -> NodeSnap {
         f.verif_node()
     }
+    fn debug(c: &Self::Chan) -> String {
+        c.verif_debug()
+    }
+    fn node_debug(f: &Self::Fut) -> String {
+        f.verif_node_debug()
+    }
 }
 
 impl<M: RawMutex + 'static> Flavor for BBc<M> {
@@ -109,6 +117,12 @@ impl<M: RawMutex + 'static> Flavor for BBc<M> {
     fn node(f: &Self::Fut) -> NodeSnap {
         f.verif_node()
     }
+    fn debug(c: &Self::Chan) -> String {
+        c.verif_debug()
+    }
+    fn node_debug(f: &Self::Fut) -> String {
+        f.verif_node_debug()
+    }
 }
 
 pub struct SOneChan<M: RawMutex + 'static> {
@@ -117,7 +131,7 @@ pub struct SOneChan<M: RawMutex + 'static> {
     vref: sh::VerifSharedOneshot<M, Tag>,
 }
 
-impl<M: RawMutex + 'static> Flavor for SOne<M> {
+impl<M: RawMutex + std::fmt::Debug + 'static> Flavor for SOne<M> {
     const BROADCAST: bool = false;
     const SHARED: bool = true;
     type V = Tag;
@@ -149,6 +163,12 @@ impl<M: RawMutex + 'static> Flavor for SOne<M> {
     fn node(f: &Self::Fut) -> NodeSnap {
         f.verif_node()
     }
+    fn debug(c: &Self::Chan) -> String {
+        c.vref.verif_debug()
+    }
+    fn node_debug(f: &Self::Fut) -> String {
+        f.verif_node_debug()
+    }
     fn senders(c: &Self::Chan) -> usize {
         c.tx.is_some() as usize
     }
@@ -169,7 +189,7 @@ pub struct SBcChan<M: RawMutex + 'static> {
     vref: sh::VerifSharedOneshotBroadcast<M, CTag>,
 }
 
-impl<M: RawMutex + 'static> Flavor for SBc<M> {
+impl<M: RawMutex + std::fmt::Debug + 'static> Flavor for SBc<M> {
     const BROADCAST: bool = true;
     const SHARED: bool = true;
     type V = CTag;
@@ -200,6 +220,12 @@ impl<M: RawMutex + 'static> Flavor for SBc<M> {
     }
     fn node(f: &Self::Fut) -> NodeSnap {
         f.verif_node()
+    }
+    fn debug(c: &Self::Chan) -> String {
+        c.vref.verif_debug()
+    }
+    fn node_debug(f: &Self::Fut) -> String {
+        f.verif_node_debug()
     }
     fn senders(c: &Self::Chan) -> usize {
         c.tx.is_some() as usize
@@ -565,6 +591,7 @@ impl<F: Flavor> System for Sys<F> {
                     r.push(structcheck::waker_code(n.waker, G, i));
                     r.push(snap.queues[0].iter().position(|q| q.addr == n.addr).map_or(200, |p| p as u8));
                     r.push(s.fut.get().is_terminated() as u8);
+                    r.extend(harness::norm(&F::node_debug(s.fut.get())));
                     recs.push(r);
                 }
             }
@@ -576,6 +603,7 @@ impl<F: Flavor> System for Sys<F> {
             v.extend(r);
             v.push(253);
         }
+        v.extend(harness::norm(&F::debug(&self.chan)));
         v
     }
 
